@@ -119,6 +119,26 @@ CLAIMED["C07"] = dict(
   technique="Coq proof (case analysis of load for an arbitrary parser; specialisation of the bisync run invariant to an untrusted record; induction over histories) + checked correspondence against the real binary",
   ref="5.14")
 
+
+# the translator tie of DESIGN 11.6 (tools/gen_logic.py): which generated functions each property's Props file restates
+TIE = {
+    "Reconcile": ("Fingerprint::same, reconcile_path and reconcile (reconcile.rs)", ["C02", "C06", "C07", "C08", "C18"]),
+    "Cas": ("cas_decide (wire.rs)", ["C03", "C10", "C13"]),
+    "Archive": ("Archive::load's trust decision (archive.rs)", ["C07"]),
+    "Plan": ("needs_transfer, glob_match, is_excluded and build_plan (plan.rs)", ["C04", "C14", "C15", "C19"]),
+    "Protocol": ("MessageType::from_u8 and FrameHeader::validate (protocol.rs)", ["C20"]),
+    "DeltaV": ("Delta::validate (delta.rs)", ["C05"]),
+    "SafeJoin": ("safe_join (serve.rs)", ["C11", "C12"]),
+}
+for _g, (_what, _props) in TIE.items():
+    for _p in _props:
+        if _p in CLAIMED:
+            CLAIMED[_p]["text"] += (" Translator tie: %s are re-translated from the current Rust source on every run (tools/gen_logic.py -> coq/Gen/%sGen.v) and proved equal to the model on all inputs (coq/Proofs/Tie%s.v, restated as %s_model_is_translation_of_source); a function the translator cannot read, or whose tie proof no longer goes through, fails this check closed." % (_what, _g, _g, _p))
+            if "gen_logic.py" not in CLAIMED[_p]["note"]:
+                CLAIMED[_p]["note"] += " Also trusted: tools/gen_logic.py + tools/rustmini.py (Rust-subset parser/translator and its tables naming model vocabulary for Rust paths, fields, library calls and error texts)."
+            if "translator" not in CLAIMED[_p]["technique"]:
+                CLAIMED[_p]["technique"] += " + source-to-Gallina translation of the decision functions with a proved tie"
+
 NA_REASON = "check not built yet in this session; see DESIGN.md section 5 for the planned model and theorems"
 
 
@@ -145,7 +165,7 @@ def main():
                    source_commits=[], add_only=True),
         engines=[dict(name="coq-proof+correspondence", path="check",
                       serves_properties=sorted(CLAIMED),
-                      kind_free_text="Coq 8.16.1 theorems over hand-written Gallina models (coq/), regenerated constants, and a differential correspondence check between the extracted models (OCaml) and the implementation (Rust harness / real binary)")],
+                      kind_free_text="Coq 8.16.1 theorems over hand-written Gallina models (coq/), constants and pure decision functions regenerated from the Rust source on every run and proved equal to the models (tools/gen_constants.py, gen_checksum.py, gen_logic.py), and a differential correspondence check between the extracted models (OCaml) and the implementation (Rust harness / real binary)")],
         checks=checks,
         notes="See DESIGN.md. Fix commits in /repo are recorded in KNOWN_FINDINGS.txt.",
         not_applicable=[dict(property_id=p, reason=NA_REASON) for p in ALL if p not in CLAIMED])
